@@ -1869,6 +1869,13 @@ class Interp:
             return self.exec_fn(st, self.f.bodies[via["def"]], [payload])
         return [(st, VOpaque("converted_error"))]
 
+    def is_user_var(self, body, local):
+        """a local that carries a source-level variable (has debug info)"""
+        for n in body.get("names", []):
+            if n["place"]["l"] == local and not n["place"]["p"]:
+                return True
+        return False
+
     def run_region(self, st, body, frame, start_bb, stop_bb):
         """execute from start_bb until control returns to stop_bb (the loop header) or leaves the
         function; -> (states at the back edge, [(st, retval)] returned from inside the region)"""
@@ -1929,6 +1936,7 @@ class Interp:
         induct = {}     # cell -> delta
         seqs = set()
         temps = set()
+        folds = {}      # cell -> accumulator atom  (x = op(x, element): a fold over the slice)
         for b in backsA:
             for c in pre_cells:
                 if c == r.cell and not r.path:
@@ -1942,7 +1950,11 @@ class Interp:
                         induct[c] = d.c
                         continue
                     induct.pop(c, None)
-                    temps.add(c)
+                    if body["locals"][frame.index(c)] is not None and c in frame and self.is_user_var(body, frame.index(c)):
+                        tr0 = ty_range(old.w, old.s)
+                        folds[c] = ("sym", "$acc", tr0.min(), tr0.max())
+                    else:
+                        temps.add(c)
                 elif isinstance(old, VSeq) and old.term[0] == "zeros" and isinstance(new, VSeq) and new.term[0] == "zeros" and new.term[1] == old.term[1]:
                     seqs.add(c)
                 elif valkey(old) != valkey(new):
@@ -1950,6 +1962,9 @@ class Interp:
         for c in list(induct):
             if c in temps:
                 del induct[c]
+        for c in list(folds):
+            if c in temps or c in induct:
+                del folds[c]
         # ---- phase B: the generic iteration k (repeated until the set of temporaries is stable)
         for _round in range(6):
             stG = st.copy()
@@ -1967,6 +1982,9 @@ class Interp:
                     stG.store[c] = VSeq(("zeros", old.term[1], old.term[2] + (("loop", lid),)), old.cap)
                 for c in temps:
                     stG.store[c] = UNINIT
+                for c, acc_atom in folds.items():
+                    old = st.store[c]
+                    stG.store[c] = VInt(old.w, old.s, lin=Lin.atom(acc_atom))
                 cellG = self.new_cell(stG, VInt(8, False, lin=Lin.atom(("byte", sl.buf, (sl.start + Lin.atom(kk)).key()))))
                 self.write_loc(stG, r.cell, r.path, type(it)(sl, Lin.atom(kk) + 1))
                 itemG = VRef(cellG, ())
@@ -1978,7 +1996,7 @@ class Interp:
             new_temps = set()
             for b in backsG:
                 for c in pre_cells:
-                    if c in induct or c in seqs or c in temps or (c == r.cell):
+                    if c in induct or c in seqs or c in temps or c in folds or (c == r.cell):
                         continue
                     if b.store.get(c) is not st.store[c] and valkey(b.store.get(c)) != valkey(st.store[c]):
                         new_temps.add(c)
@@ -2006,7 +2024,20 @@ class Interp:
                     raise Unanalysable("buffer written in the loop is not an accumulation", (body["def"], hdr))
                 writes[c] = got.term[2][len(base):]
             summary.append((b, writes))
-        self.loops[lid] = {"kk": kk, "slice": sl, "backs": summary, "rets": retsG, "induct": induct, "seqs": seqs, "def": body["def"], "hdr": hdr}
+        # accumulator cells: the step must be the same function of (accumulator, element) on every path
+        fold_ops = {}
+        elem_atom = ("byte", sl.buf, (sl.start + Lin.atom(kk)).key())
+        for c, acc_atom in folds.items():
+            ops = set()
+            for b in backsG:
+                got = b.store.get(c)
+                if not isinstance(got, VInt):
+                    raise Unanalysable("accumulator of unexpected type", (body["def"], hdr))
+                ops.add(_subst_key(valkey(self.norm(b, got)), elem_atom, ("sym", "$elem", 0, 255)))
+            if len(ops) != 1 or len(backsG) != 1 or retsG:
+                raise Unanalysable("loop-carried variable is neither a linear induction nor a uniform fold", (body["def"], hdr))
+            fold_ops[c] = ops.pop()
+        self.loops[lid] = {"kk": kk, "slice": sl, "backs": summary, "rets": retsG, "induct": induct, "seqs": seqs, "def": body["def"], "hdr": hdr, "folds": fold_ops}
         # results returned from inside the loop body belong to the enclosing function
         for (s2, rv) in retsG:
             s2.event("loop_return", lid)
@@ -2021,9 +2052,22 @@ class Interp:
             stE.store[c] = VSeq(("zeros", old.term[1], old.term[2] + (("loopsum", lid),)), old.cap)
         for c in temps:
             stE.store[c] = UNINIT
+        for c, op in fold_ops.items():
+            old = st.store[c]
+            tr0 = ty_range(old.w, old.s)
+            # same term as Iterator::fold over the slice (xform.h_fold)
+            stE.store[c] = VInt(old.w, old.s, lin=Lin.atom(("opqint", "fold", valkey(sl), lin_of(st, old).key(), op, tr0.min(), tr0.max())))
         self.write_loc(stE, r.cell, r.path, type(it)(sl, sl.len))
         stE.event("loop_done", lid)
         return [(stE, NONE)]
+
+def _subst_key(k, old, new):
+    if k == old:
+        return new
+    if isinstance(k, tuple):
+        return tuple(_subst_key(x, old, new) for x in k)
+    return k
+
 
 def _clone_obl(o):
     n = Obligation(o.site, o.kind, o.loc, o.macros)
